@@ -10,12 +10,7 @@
                  so a lookup outside the table cannot go unnoticed)
     Definitions only. *)
 From Coq Require Import ZArith List Bool Floats.
-<<<<<<< HEAD
-From Geo Require Import Base.GoPrim Gen.R3 Gen.S2Point Gen.CrosserLeaf Model.Crosser.
-From Geo Require Import Gen.S2Pred.  (* s2_triageSign *)
-=======
 From Geo Require Import Base.GoPrim Gen.R3 Gen.S2Point Gen.S2Pred Model.Crosser.
->>>>>>> c03
 Import ListNotations.
 Local Open Scope Z_scope.
 Local Open Scope bool_scope.
